@@ -15,7 +15,9 @@ namespace PLV
 @[reducible] def W : Nat := 18446744073709551616   -- 2^64
 
 def wadd (a b : Nat) : Nat := (a + b) % W
-def wsub (a b : Nat) : Nat := (a + W - b % W) % W
+/-- written `(W - b % W) + a` rather than `a + W - …`: addition recurses on its *second* argument, and a
+    kernel unfolding of `a + 18446744073709551616` would recurse 2^64 deep -/
+def wsub (a b : Nat) : Nat := ((W - b % W) + a) % W
 /-- `u64::saturating_add` -/
 def sadd (a b : Nat) : Nat := if a + b < W then a + b else W - 1
 
